@@ -153,6 +153,20 @@ def check_option(case):
         want = PROBE[types[0]]
         if e2 is not None or type(got) is not type(want) or got != want:
             bad = ("parse-disagrees-with-reported-type", repr(want), repr(got if e2 is None else e2))
+    if bad is None:
+        # "always": the same consistency after every later set_default (it may refuse with ValueError)
+        for d in (None, "d", ["d"]):
+            _, e3 = _construct(lambda: o.set_default(list(d) if isinstance(d, list) else d))
+            if e3 is not None and not isinstance(e3, ValueError):
+                return report.viol("crash:" + report.exc_site(e3), "Option(flags=%d).set_default(%r) raised %r" % (flags, d, e3), case)
+            if not o.accepts_value() and o.default is not None:
+                bad = ("valueless-has-default-after-set_default", None, repr(o.default))
+            elif o.is_multi_valued() and not isinstance(o.default, list):
+                bad = ("multi-valued-default-not-list-after-set_default", "list", repr(o.default))
+            elif o.flags != f:
+                bad = ("set_default-changed-flags", f, o.flags)
+            if bad:
+                break
     if bad:
         return report.viol("option:invariant:" + bad[0], "Option(flags=%d, short=%r, default=%r) was accepted with flags=%d: %s" % (
             flags, short, default, f, bad[0]), case, bad[1], bad[2])
@@ -199,6 +213,19 @@ def check_argument(case):
         want = PROBE[types[0]]
         if e2 is not None or type(got) is not type(want) or got != want:
             bad = ("parse-disagrees-with-reported-type", repr(want), repr(got if e2 is None else e2))
+    if bad is None:
+        for d in (None, "d", ["d"]):
+            _, e3 = _construct(lambda: a.set_default(list(d) if isinstance(d, list) else d))
+            if e3 is not None and not isinstance(e3, ValueError):
+                return report.viol("crash:" + report.exc_site(e3), "Argument(flags=%d).set_default(%r) raised %r" % (flags, d, e3), case)
+            if a.is_required() and a.default not in (None, []):
+                bad = ("required-has-default-after-set_default", None, repr(a.default))
+            elif a.is_multi_valued() and not isinstance(a.default, list):
+                bad = ("multi-valued-default-not-list-after-set_default", "list", repr(a.default))
+            elif a.flags != f:
+                bad = ("set_default-changed-flags", f, a.flags)
+            if bad:
+                break
     if bad:
         return report.viol("argument:invariant:" + bad[0], "Argument(flags=%d, default=%r) was accepted with flags=%d: %s" % (flags, default, f, bad[0]),
                            case, bad[1], bad[2])
@@ -361,8 +388,13 @@ BOUNDARY_TEXTS = ["", " ", "null", "NULL", "Null", "none", "abc", "0", "1", "-1"
 BIG_INTS = [2 ** 31 - 1, 2 ** 31, -2 ** 31, -2 ** 31 - 1, 2 ** 63 - 1, 2 ** 63, -2 ** 63, -2 ** 63 - 1, 10 ** 30, -10 ** 30]
 
 
+INT_RANGE = {"quick": 1100, "thorough": 20000}
+NAME_LEN = {"quick": 4, "thorough": 5}
+
+
 def int_domain():
-    return sorted(range(-1100, 1101), key=lambda n: (abs(n), n < 0)) + BIG_INTS
+    m = INT_RANGE.get(common.tier(), 1100)
+    return sorted(range(-m, m + 1), key=lambda n: (abs(n), n < 0)) + BIG_INTS
 
 
 def float_domain():
@@ -538,7 +570,7 @@ def all_cases(seed):
     n_flags = len(cases)
     extra = ["b", "9", ".", "="][seed % 4]
     alpha = ["a", "Z", "1", "-", "_", "é", " ", extra]
-    base = name_strings(alpha, 4)
+    base = name_strings(alpha, NAME_LEN.get(common.tier(), 4))
     raw = []
     seen = set()
     for s in base:
@@ -558,7 +590,8 @@ def all_cases(seed):
         for tname in (None, "STRING", "BOOLEAN", "INTEGER", "FLOAT"):
             for nullable in (False, True):
                 cases.append(["parse", cls, tname, nullable, None])
-    return cases, dict(flag_word_cases=n_flags, name_cases=n_names, name_strings=len(raw), rotated_name_letter=extra)
+    return cases, dict(flag_word_cases=n_flags, name_cases=n_names, name_strings=len(raw), rotated_name_letter=extra,
+                       max_name_length=NAME_LEN.get(common.tier(), 4), int_text_range=INT_RANGE.get(common.tier(), 1100))
 
 
 def main():
